@@ -135,7 +135,7 @@ void t_tsan(Src &s, Case &c)
             for (int q = 0; q < kQueues; q++)
                 unwait_all(w.queue[q], -1);
             usleep(20);
-            if (std::chrono::steady_clock::now() - t0 > std::chrono::seconds(20))
+            if (std::chrono::steady_clock::now() - t0 > std::chrono::seconds(6))
             {
                 stuck = true;
                 break;
@@ -144,7 +144,7 @@ void t_tsan(Src &s, Case &c)
         if (stuck)
         {
             // a wall-clock budget is never a verdict: the controlled scheduler decides deadlocks exactly
-            c.log(" (run %d did not finish within 20 s: inconclusive, skipped)", r);
+            c.log(" (run %d did not finish within 6 s: inconclusive, skipped)", r);
             for (auto &t : th)
                 t.detach();
             throw Discard{};
